@@ -909,7 +909,8 @@ impl GlyphDataOffsetArray for Gvar<'_> {
             flags &= 0b11111110;
         }
 
-        let max_new_size = orig_size + offsets.data.len() + offsets.offset_array.len();
+        // one extra byte: empty glyph data is written as a single padding byte (a zero-length object cannot be packed)
+        let max_new_size = orig_size + offsets.data.len() + offsets.offset_array.len() + 1;
 
         // part 1 and 2 - write gvar header and offsets
         let mut serializer = Serializer::new(max_new_size);
@@ -924,7 +925,11 @@ impl GlyphDataOffsetArray for Gvar<'_> {
         // part 4 - write new glyph variation data
         serializer
             .push()
-            .and(serializer.embed_bytes(&offsets.data))
+            .and(serializer.embed_bytes(if offsets.data.is_empty() {
+                &[0u8][..]
+            } else {
+                &offsets.data[..]
+            }))
             .map_err(PatchingError::from)?;
 
         let glyph_data_obj = serializer
